@@ -240,6 +240,8 @@ func (env *specEnv) binary(x SBin) Val {
 				r = valEq(a, b)
 			}
 		} else {
+			fc.materializeStruct(a, 0)
+			fc.materializeStruct(b, 0)
 			r = valEq(a, b)
 		}
 		if x.Op == "!=" {
